@@ -310,16 +310,24 @@ struct Exec {
 		std::string what;
 		// fault: an open for reading fails inside this call (out of descriptors / file gone between two opens of one name)
 		uint64_t firedBefore = g_fault.firedOpenFail;
+		uint64_t tmpPos = 0, tmpLen = 0; bool tmpSeen = false;
 		if (a.kind != Kind::Mem) g_fault.openFailCountdown = op.u("openfail", 0);
 		Out o = call([&] {
 			if (a.kind == Kind::Mem) {
 				auto r = std::make_unique<Stream::MemoryReader>(atPos ? a.mem->Slice(n) : static_cast<const Stream::MemoryReader*>(a.mem)->Slice(s, n));
 				na->kind = Kind::Mem; na->mem = r.get(); na->obj = std::move(r);
 			} else if (a.kind == Kind::File) {
-				auto r = std::make_unique<Stream::FileSliceReader>(atPos ? a.file->Slice(n) : static_cast<const Stream::FileReader*>(a.file)->Slice(s, n));
+				// (the injected open failure applies to the library's call only, not to the harness's own copy onto the heap)
+				Stream::FileSliceReader tmp = atPos ? a.file->Slice(n) : static_cast<const Stream::FileReader*>(a.file)->Slice(s, n);
+				g_fault.openFailCountdown = 0;
+				tmpPos = tmp.Position(); tmpLen = tmp.Length(); tmpSeen = true; // what the library returned, before the harness copies it
+				auto r = std::make_unique<Stream::FileSliceReader>(tmp);
 				na->kind = Kind::FSlice; na->fslice = r.get(); na->obj = std::move(r);
 			} else {
-				auto r = std::make_unique<Stream::FileSliceReader>(atPos ? a.fslice->Slice(n) : static_cast<const Stream::FileSliceReader*>(a.fslice)->Slice(s, n));
+				Stream::FileSliceReader tmp = atPos ? a.fslice->Slice(n) : static_cast<const Stream::FileSliceReader*>(a.fslice)->Slice(s, n);
+				g_fault.openFailCountdown = 0;
+				tmpPos = tmp.Position(); tmpLen = tmp.Length(); tmpSeen = true; // what the library returned, before the harness copies it
+				auto r = std::make_unique<Stream::FileSliceReader>(tmp);
 				na->kind = Kind::FSlice; na->fslice = r.get(); na->obj = std::move(r);
 			}
 		}, &what);
@@ -340,6 +348,7 @@ struct Exec {
 			// accepted: then the new reader is a working one, judged like any other below
 		}
 		requireOutcome(o, ok, "C13.create-refuse", "C13.create-refuse", desc, what);
+		if (ok && o == OkOut && tmpSeen && (tmpPos != 0 || tmpLen != n)) ctx.fail(tmpPos > tmpLen && plan.property == "C12" ? "C12.pos-le-len" : "C13.confined", desc + ": the slice as returned reports position " + std::to_string(tmpPos) + " length " + std::to_string(tmpLen) + ", expected 0/" + std::to_string(n));
 		if (!ok) {
 			ctx.count("probe.slice_refused");
 			if (static_cast<u128>(s) + n > static_cast<u128>(kMaxU)) ctx.count("probe.slice_wrap_refused");
@@ -707,6 +716,7 @@ struct StreamActors : Family {
 			op.set("a", c13 ? r.below(8) : i);
 			if (op.verb == "slice") op.set("s", argTok(r, false, 0));
 			op.set("n", r.chance(1, 6) ? argTok(r, true, 50) : "~" + std::to_string(r.below(100000)));
+			if (i > 0 && r.chance(1, 8)) op.set("openfail", 1 + r.below(2));
 			p.ops.push_back(op);
 		}
 		for (size_t i = 0; i < nops; ++i) {
@@ -722,7 +732,7 @@ struct StreamActors : Family {
 			else if (k < 73) { op = mkline("op", "begin"); op.set("a", a); }
 			else if (k < 76) { op = mkline("op", "end"); op.set("a", a); }
 			else if (k < (c13 ? 86u : 79u)) { op = mkline("op", "slice"); op.set("a", a).set("s", argTok(r, true, 20)).set("n", argTok(r, true, 25)); if (r.chance(1, 6)) op.set("openfail", 1 + r.below(2)); }
-			else if (k < (c13 ? 91u : 81u)) { op = mkline("op", "slicepos"); op.set("a", a).set("n", argTok(r, true, 25)); }
+			else if (k < (c13 ? 91u : 81u)) { op = mkline("op", "slicepos"); op.set("a", a).set("n", argTok(r, true, 25)); if (r.chance(1, 4)) op.set("openfail", 1 + r.below(2)); }
 			else if (k < (c13 ? 95u : 82u)) { op = mkline("op", "copy"); op.set("a", a); if (r.chance(1, 5)) op.set("openfail", 1 + r.below(2)); }
 			else if (k < (c13 ? 98u : 83u)) { op = mkline("op", "drop"); op.set("a", a); }
 			else if (c13) {
